@@ -181,6 +181,7 @@ impl Monitor for HandoverMonitor {
         let i = p.st;
         let ts = w.stations[i].cfg.addr;
         self.st[i].pre_las = p.pre.las;
+        let garbage_before = self.st[i].garbage_since_pass && self.st[i].bytes_since_pass > 0;
         self.st[i].bytes_since_pass += p.new_rx_bytes;
         if p.new_rx_bytes > 0 || p.rx.iter().any(|r| !matches!(r.verdict, RxVerdict::Consumed { .. })) {
             self.st[i].garbage_since_pass = true;
@@ -215,7 +216,11 @@ impl Monitor for HandoverMonitor {
                     // (a lone 0xE5 dropped from the buffer may have been consumed as a short
                     // confirmation or flushed with the remains of a timed-out exchange: the log
                     // cannot tell, so it does not restart the silence)
-                    if !(matches!(frame, Frame::Sc) && self.st[i].awaiting.is_none()) {
+                    // The same holds for a whole buffer that happens to be one valid frame when the
+                    // station drops what is left after undecodable data at the end of a supervised
+                    // token pass.
+                    let flushed_maybe = *last && garbage_before && matches!(self.st[i].hs, Hs::Passed { .. });
+                    if !(matches!(frame, Frame::Sc) && self.st[i].awaiting.is_none()) && !flushed_maybe {
                         self.st[i].last_valid_activity = p.t;
                     }
                     // anything heard ends a pending pass supervision
